@@ -662,7 +662,7 @@ func newPrio(c Cfg, w *vrt.World) *explore.Instance {
 			})
 		}
 		// closer for prefilled inputs: closes them in any order at any time
-		if len(prefilled) > 0 && c.Mode != "open" && c.Mode != "saturate" && c.Mode != "alone" {
+		if len(prefilled) > 0 && c.Mode != "open" && c.Mode != "saturate" && c.Mode != "alone" && c.Mode != "gracefulfirst" {
 			vrt.Spawn("closer", func() {
 				// fixed order (descending priority, or ascending with Mode closeasc); the
 				// scheduler places every close at every point of the run
@@ -1129,7 +1129,33 @@ func (m *prioMon) spawnV1Control(c Cfg, v1 *v1Ctl, inputs []chan Item) {
 			v1.cancel()
 		})
 	default:
-		if c.Script > 0 {
+		if c.Mode == "gracefulfirst" {
+			// documented: a pending graceful stop ends once the remaining inputs are
+			// closed OR REMOVED. The inputs stay open; GracefulStop() is requested at
+			// once; a control thread removes every input, in any order.
+			v1.scriptDone = true
+			vrt.Spawn("control", func() {
+				left := append([]uint(nil), c.P...)
+				for len(left) > 0 {
+					vrt.Mark(hashUints(left))
+					k := vrt.Choose(len(left))
+					p := left[k]
+					left = append(left[:k:k], left[k+1:]...)
+					var st *vrt.ChanState
+					for ch, q := range m.reg {
+						if q == p {
+							st = ch
+						}
+					}
+					v1.remove(p)
+					if st != nil {
+						delete(m.reg, st)
+						m.removed[st] = true
+					}
+				}
+				vrt.Mark(0xd0e)
+			})
+		} else if c.Script > 0 {
 			m.spawnScript(c, v1, inputs)
 		}
 		vrt.Spawn("graceful", func() {
